@@ -3,6 +3,7 @@ module github.com/onosproject/onos-config/verifharness
 go 1.19
 
 require (
+	github.com/onosproject/onos-api/go v0.10.32
 	github.com/onosproject/onos-config v0.0.0
 	github.com/openconfig/gnmi v0.9.1
 )
@@ -31,7 +32,6 @@ require (
 	github.com/magiconair/properties v1.8.6 // indirect
 	github.com/mitchellh/go-homedir v1.1.0 // indirect
 	github.com/mitchellh/mapstructure v1.4.3 // indirect
-	github.com/onosproject/onos-api/go v0.10.32 // indirect
 	github.com/onosproject/onos-lib-go v0.10.17 // indirect
 	github.com/pelletier/go-toml v1.9.4 // indirect
 	github.com/pierrec/lz4 v2.6.1+incompatible // indirect
